@@ -603,6 +603,18 @@ def work(task):
                 _do(acc, {"kind": "helper_bad", "helper": h, "text": t}, (h, "len1mod4", L))
                 _do(acc, {"kind": "helper_bad", "helper": h, "text": t.decode()}, (h, "len1mod4s", L))
         _do(acc, {"kind": "helper_bad", "helper": h, "text": "ab\xff"}, (h, "nonascii_str"))
+        # non-ASCII TEXT: characters whose upper() / lower() / casefold() is ASCII alphabet text (long s, dotless i, Kelvin
+        # sign, the ff-ligatures), full-width letters and digits, accented letters -- at every position of valid text, and
+        # the ligatures standing for their two / three letters so that the case-mapped length is a valid one
+        looks = ("\u017f", "\u0131", "\u212a", "\u0130", "\uff21", "\uff41", "\uff12", "\u00e9", "\u0391", "\u00df")
+        for t0 in ("SIKSIKSI", "siksiksi", "AAAA", "2222"):
+            for pos in range(len(t0)):
+                for c in looks:
+                    _do(acc, {"kind": "helper_bad", "helper": h, "text": t0[:pos] + c + t0[pos + 1:]}, (h, "lookalike", t0, pos, ord(c)))
+        for lig, n in (("\ufb00", 2), ("\ufb01", 2), ("\ufb02", 2), ("\ufb03", 3), ("\ufb04", 3), ("\ufb05", 2), ("\ufb06", 2)):
+            for total in (4, 8):
+                for pos in range(total - n + 1):
+                    _do(acc, {"kind": "helper_bad", "helper": h, "text": "A" * pos + lig + "A" * (total - n - pos)}, (h, "ligature", ord(lig), total, pos))
     else:
         raise core.HarnessError(f"unknown part {part}")
     if acc.evaluations and not acc.samples:
